@@ -12,7 +12,7 @@ TIE_EXACT_ONLY = True
 
 PROP = {
     "id": "C14",
-    "quick_n": 120,
+    "quick_n": 250,
     "thorough_n": 2500,
     "rule": "one program = a dataframe of 1-14 rows with float (NaN), integer, boolean and timestamp "
             "(NaT) columns, one feature of 1-3 columns, bin specifications that are explicit (every "
